@@ -125,32 +125,46 @@ pub trait SimEnv: Sized {
     }
 }
 
-fn series_from<const L: usize>(
+/// element-wise widening to u32 (the tree under test may store a series in a narrower or wider integer type)
+fn wd<T: Copy + TryInto<u32>>(v: &[T]) -> Vec<u32> {
+    v.iter().map(|x| (*x).try_into().unwrap_or(u32::MAX)).collect()
+}
+
+#[allow(clippy::too_many_arguments)]
+fn series_from<const L: usize, A, B, C, D, F, G>(
     rec: &bourse_de::Level2DataRecords<L>,
-    trade_vols: &[u32],
-    prices: &(Vec<u32>, Vec<u32>),
-    vols: &(Vec<u32>, Vec<u32>),
-    tv: (&Vec<u32>, &Vec<u32>),
-    tn: (&Vec<u32>, &Vec<u32>),
-) -> Series {
+    trade_vols: &[A],
+    prices: &(Vec<B>, Vec<B>),
+    vols: &(Vec<C>, Vec<C>),
+    tv: (&Vec<D>, &Vec<D>),
+    tn: (&Vec<F>, &Vec<F>),
+    _marker: std::marker::PhantomData<G>,
+) -> Series
+where
+    A: Copy + TryInto<u32>,
+    B: Copy + TryInto<u32>,
+    C: Copy + TryInto<u32>,
+    D: Copy + TryInto<u32>,
+    F: Copy + TryInto<u32>,
+{
     Series {
-        bid_price: rec.prices.0.clone(),
-        ask_price: rec.prices.1.clone(),
-        bid_vol: rec.volumes.0.clone(),
-        ask_vol: rec.volumes.1.clone(),
-        touch_bid_vol: tv.0.clone(),
-        touch_ask_vol: tv.1.clone(),
-        touch_bid_n: tn.0.clone(),
-        touch_ask_n: tn.1.clone(),
-        lvl_bid_vol: rec.volumes_at_levels.0.iter().cloned().collect(),
-        lvl_ask_vol: rec.volumes_at_levels.1.iter().cloned().collect(),
-        lvl_bid_n: rec.orders_at_levels.0.iter().cloned().collect(),
-        lvl_ask_n: rec.orders_at_levels.1.iter().cloned().collect(),
-        trade_vols: trade_vols.to_vec(),
-        hist_bid_price: prices.0.clone(),
-        hist_ask_price: prices.1.clone(),
-        hist_bid_vol: vols.0.clone(),
-        hist_ask_vol: vols.1.clone(),
+        bid_price: wd(&rec.prices.0),
+        ask_price: wd(&rec.prices.1),
+        bid_vol: wd(&rec.volumes.0),
+        ask_vol: wd(&rec.volumes.1),
+        touch_bid_vol: wd(tv.0),
+        touch_ask_vol: wd(tv.1),
+        touch_bid_n: wd(tn.0),
+        touch_ask_n: wd(tn.1),
+        lvl_bid_vol: rec.volumes_at_levels.0.iter().map(|v| wd(v)).collect(),
+        lvl_ask_vol: rec.volumes_at_levels.1.iter().map(|v| wd(v)).collect(),
+        lvl_bid_n: rec.orders_at_levels.0.iter().map(|v| wd(v)).collect(),
+        lvl_ask_n: rec.orders_at_levels.1.iter().map(|v| wd(v)).collect(),
+        trade_vols: wd(trade_vols),
+        hist_bid_price: wd(&prices.0),
+        hist_ask_price: wd(&prices.1),
+        hist_bid_vol: wd(&vols.0),
+        hist_ask_vol: wd(&vols.1),
     }
 }
 
@@ -196,7 +210,7 @@ impl<const L: usize> SimEnv for Env<L> {
         crate::real::status_u8(self.order_status(id))
     }
     fn series(&self, _asset: usize) -> Series {
-        series_from(self.get_level_2_data_history(), self.get_trade_vols(), self.get_prices(), self.get_volumes(), self.get_touch_volumes(), self.get_touch_order_counts())
+        series_from(self.get_level_2_data_history(), self.get_trade_vols(), self.get_prices(), self.get_volumes(), self.get_touch_volumes(), self.get_touch_order_counts(), std::marker::PhantomData::<()>)
     }
     fn cached_l2(&self, _asset: usize) -> L2 {
         l2_of(self.level_2_data())
@@ -277,6 +291,7 @@ impl<const A: usize, const L: usize> SimEnv for MarketEnv<A, L> {
             self.get_volumes(asset),
             self.get_touch_volumes(asset),
             self.get_touch_order_counts(asset),
+            std::marker::PhantomData::<()>,
         )
     }
     fn cached_l2(&self, asset: usize) -> L2 {
